@@ -61,7 +61,6 @@ func configs(thorough bool) (pdiff.Config, []pdiff.Config, []pdiff.Config) {
 	sort.SliceStable(all, func(i, j int) bool { return all[i].Deviations() < all[j].Deviations() })
 
 	// The corpus runs through `ego test`, which has no allocation option.
-	// Quick: each optimizer level with the switches off and with all on.
 	var corpus []pdiff.Config
 
 	for _, c := range all {
@@ -69,7 +68,8 @@ func configs(thorough bool) (pdiff.Config, []pdiff.Config, []pdiff.Config) {
 			continue
 		}
 
-		if on := c.Reg + c.Fold + c.Cache; thorough || on == 0 || on == 3 {
+		// Quick: the optimizer alone, the switches alone, both together.
+		if on := c.Reg + c.Fold + c.Cache; thorough || (on == 0 && c.Opt == 2) || (on == 3 && c.Opt != 1) {
 			corpus = append(corpus, c)
 		}
 	}
@@ -94,7 +94,13 @@ func main() {
 		ConfirmCap:   2,
 	}
 
-	r.Rule(fmt.Sprintf("programs: every statement form (16 assignment/increment shapes, comparisons, constant expressions, loops, package constants, globals, closures, try/catch, collections, structs, strings, dynamic typing, control flow, scopes, aborting programs) over every numeric type and the listed initial values/constants%s; each program x %d configurations (optimizer 0-3 x registers/constfold/globalcache %s) x 3 type modes against the baseline (optimizer 0, all three off); plus every test block of tests/**.ego under %d configurations x 3 modes. distinct = (mode, program) that produces output or an error under the baseline, and (mode, corpus test block) stable in two baseline runs",
+	if !r.Thorough() {
+		// Quick: configurations that combine several settings run in dynamic
+		// mode only; every single-setting configuration runs in all modes.
+		plan.ComboModes = []string{"dynamic"}
+	}
+
+	r.Rule(fmt.Sprintf("programs: every statement form (16 assignment/increment shapes, comparisons, constant expressions, loops, package constants, globals, closures, try/catch, collections, structs, strings, dynamic typing, control flow, scopes, aborting programs) over every numeric type and the listed initial values/constants%s; each program x %d configurations (optimizer 0-3 x registers/constfold/globalcache %s) x 3 type modes (quick: multi-setting configurations in dynamic mode only) against the baseline (optimizer 0, all three off); plus every test block of tests/**.ego under %d configurations x 3 modes. distinct = (mode, program) that produces output or an error under the baseline, and (mode, corpus test block) stable in two baseline runs",
 		map[bool]string{false: "", true: " and every ordered pair of statement forms on one variable"}[r.Thorough()],
 		len(all), map[bool]string{false: "as single flips: each level with the switches off, each switch on alone at levels 0 and 2, all on at levels 0-2, each switch off alone at level 2; symbol allocation 16 and 1024 at two corners", true: "in all 8 combinations x symbol allocation {default,16,1024}"}[r.Thorough()], len(corpus)))
 	r.Assume("the batch worker repeats ego's main() in one process per configuration; state leaking between its items can hide a difference but cannot raise one, because every disagreement is re-run in fresh `ego run` processes (twice per side) before it is reported",
